@@ -63,7 +63,13 @@ func H_C13(v *zzverif.T) {
 				dims = append(dims, &onnx.TensorShapeProto_Dimension{})
 			}
 		}
-		inputs = append(inputs, zzValueInfo(names[i], dims))
+		vi := zzValueInfo(names[i], dims)
+		if i == 0 && v.Has("elem") {
+			// the first input is declared with another element type (BOOL, INT64, DOUBLE) and is supplied with a
+			// tensor of exactly that type
+			vi.Type.Value.(*onnx.TypeProto_TensorType).TensorType.ElemType = map[string]int32{"bool": 9, "int64": 7, "float64": 11}[v.CStr("elem")]
+		}
+		inputs = append(inputs, vi)
 		if isInit[i] == 1 {
 			inits = append(inits, &onnx.TensorProto{Name: names[i], DataType: 1, Dims: []int64{1}, FloatData: []float32{0.5}})
 		}
@@ -148,6 +154,19 @@ func H_C13(v *zzverif.T) {
 			}
 			t = w
 			dims[0], dims[1] = 4, 2
+		}
+		if i == 0 && v.Has("elem") {
+			for k := range dims {
+				dims[k] = 2 + k
+			}
+			switch v.CStr("elem") {
+			case "bool":
+				t = zzverif.NewTensor(make([]bool, zzverif.Prod(dims)), dims)
+			case "int64":
+				t = zzverif.NewTensor(make([]int64, zzverif.Prod(dims)), dims)
+			case "float64":
+				t = zzverif.NewTensor(make([]float64, zzverif.Prod(dims)), dims)
+			}
 		}
 		if i == 0 && v.Has("view") && v.CInt("view") == 2 && sup[i] == 2 {
 			// a lazily transposed tensor: stored as (3,2), handed over as its (2,3) transpose without Transpose()
